@@ -12,6 +12,7 @@ LEVELS = [("none", "Consistency::None"), ("one", "Consistency::One"), ("two", "C
           ("localquorum", "Consistency::LocalQuorum"), ("all", "Consistency::All"),
           ("eachquorum", "Consistency::EachQuorum")]
 N_LEVELS = ("one", "two", "three")
+RNG_LAYOUTS = ([1, 1, 1], [1, 1, 1, 1], [2, 1, 1])
 OWN_HARNESS = ("one", "two", "three", "quorum")
 
 # (layout = nodes per data centre, positions of the local node that are instantiated)
@@ -68,6 +69,8 @@ META = {
         "the selector actor around the function (tokio::spawn'ed loop: 2 s result cache, SetNodes never removing a departed data centre) - "
         "'after a membership update departed nodes are never selected again' is NOT decided",
         "layouts other than those instantiated (more than 4 data centres, more than 5 nodes per data centre)",
+        "the Quorum level over more than one data centre (did not finish in 45 minutes for [2,2]; decided for single-data-centre layouts only)",
+        "the random data-centre choice (more eligible data centres than nodes wanted) outside the layouts [1,1,1], [1,1,1,1], [2,1,1] of the thorough tier",
         "the real RNG distribution",
     ],
 }
@@ -76,7 +79,7 @@ MANIFEST = {
     "text": "Bounded model checking (SAT) of the real DCAwareSelector::select_nodes / select_n_nodes / NodeCycler (nodes_selector.rs, "
             "std BTreeMap swapped for an association-list model by a one-line import rewrite): for each instantiated membership layout, "
             "local node position and consistency level, over ALL values of the per-data-centre rotating cursors (= whatever selections "
-            "were made before) and ALL random draws (the configurations that reach the random data-centre choice run in the thorough tier only): a successful selection contains only current members, never the local node, no "
+            "were made before) and ALL random draws (the configurations that reach the random data-centre choice run in the thorough tier only, for three layouts; the Quorum level is decided for single-data-centre layouts only): a successful selection contains only current members, never the local node, no "
             "duplicates, at least as many as the level requires (exactly n for One/Two/Three); not-enough-nodes is reported only when "
             "fewer than the required number of other nodes exist. The membership-update half of the property (selector actor) is outside the claim.",
     "note": "Trusts Kani/CBMC, the vsel map model, the tracing/rand shims; configurations are a finite instantiated list, not all layouts.",
@@ -151,11 +154,13 @@ def _configs(tier):
             base = "c15_l%s_p%d%d_" % ("".join(str(x) for x in layout), dc, node)
             crate = "selv%d" % _cap_for(layout)
             for lname, lexpr in LEVELS:
-                if lname == "quorum" and tier != "thorough" and len(layout) > 1:
-                    # Quorum's round-robin over several per-data-centre iterators takes 10+ minutes: thorough tier only
+                if lname == "quorum" and len(layout) > 1:
+                    # Quorum's round-robin over several per-data-centre iterators did not finish in 45 minutes ([2,2]) - and its
+                    # outcome does not depend on any symbolic input (it ignores the cursors): single-data-centre layouts only
                     continue
-                if tier != "thorough" and _uses_rng(layout, dc, lname):
-                    # the random data-centre choice makes the selected cyclers symbolic references: 8.8 M variables, 12 minutes
+                if _uses_rng(layout, dc, lname) and (tier != "thorough" or layout not in RNG_LAYOUTS):
+                    # the random data-centre choice makes the selected cyclers symbolic references: 8.8 M variables, 12 minutes,
+                    # 16+ GB each: thorough tier, three layouts
                     continue
                 if lname in OWN_HARNESS:
                     out.append((base + lname, layout, dc, node, lname, lexpr, crate))
